@@ -40,12 +40,14 @@ from unittest import mock
 import common as C
 
 PROPERTY = "C14"
-LEAN_MODULES = ["LccModel.Props.C14", "LccModel.Props.C14Inject", "LccModel.Props.C14Callable", "LccModel.Props.C14Reconfig"]
+LEAN_MODULES = ["LccModel.Props.C14", "LccModel.Props.C14Inject", "LccModel.Props.C14Callable", "LccModel.Props.C14Reconfig",
+                "LccModel.Props.C14Disk"]
 PROPS_FILES = ["LccModel/Props/C14.lean", "LccModel/Props/C14Inject.lean", "LccModel/Props/C14Callable.lean",
-               "LccModel/Props/C14Reconfig.lean"]
+               "LccModel/Props/C14Reconfig.lean", "LccModel/Props/C14Disk.lean"]
 NAMESPACES = {"LccModel/Props/C14.lean": "LccModel.C14", "LccModel/Props/C14Inject.lean": "LccModel.C14I",
-              "LccModel/Props/C14Callable.lean": "LccModel.C14C", "LccModel/Props/C14Reconfig.lean": "LccModel.C14R"}
-TABLE_OPENS = ("LccModel.Inject",)
+              "LccModel/Props/C14Callable.lean": "LccModel.C14C", "LccModel/Props/C14Reconfig.lean": "LccModel.C14R",
+              "LccModel/Props/C14Disk.lean": "LccModel.C14Disk"}
+TABLE_OPENS = ("LccModel.Inject", "LccModel.ProjectFiles")
 DRIVER = "drivers/C14.lean"
 TRUSTED_BASE = [
     "Lean 4.33.0 kernel; axioms of the property theorems ⊆ {propext, Classical.choice, Quot.sound}",
@@ -327,7 +329,8 @@ def tables(ctx):
     from props import _c14seq
     app_tag, app_prop = _c14seq.application_rows()
     imps = ("LccModel.Model.PolicySeq",)
-    return [C.Table("tagApplicationTable", "List ((Option Bool × Option Bool) × Option (Bool × Bool))", app_tag, imports=imps),
+    from props import _c14disk
+    return _c14disk.tables() + [C.Table("tagApplicationTable", "List ((Option Bool × Option Bool) × Option (Bool × Bool))", app_tag, imports=imps),
             C.Table("propApplicationTable", "List ((Option Bool × Option Bool) × Option (Bool × Bool))", app_prop, imports=imps),
             C.Table("discoveryTable", "List ((Shape × Place) × Bool)", disc, imports=imp),
             C.Table("assignTable", "List ((Shape × Place) × Bool)", asg, imports=imp),
@@ -2083,5 +2086,5 @@ class Run(C.Stream):
 
 
 def streams(ctx):
-    from props import _c14seq
-    return [Validate(), Run(), _c14seq.Reconfig()]
+    from props import _c14seq, _c14disk
+    return [Validate(), Run(), _c14seq.Reconfig(), _c14disk.Disk()]
